@@ -76,6 +76,13 @@ func modeSpec(c *Ctx) {
 			for _, m := range []string{"GET", "HEAD", "POST"} {
 				mwHits, opRan = 0, ""
 				r := NewRequest(m, path, "", http.Header{"X-Block": {"1"}}, nil)
+				if k == 1 {
+					// a request whose context is already done (client gone, deadline passed):
+					// what is served is still the file
+					ctx, cancel := context.WithCancel(context.Background())
+					cancel()
+					r = r.WithContext(ctx)
+				}
 				w := newRec()
 				func() {
 					defer func() {
